@@ -118,6 +118,8 @@ type Compiler struct {
 	stmtDepth     int
 	lastPos       token.Pos
 	declStack     []*Sym
+	typeGroups    map[*ast.GenDecl]*gogen.TypeDefs
+	groupOrder    []*gogen.TypeDefs
 	Overloaded    int    // calls issued through an overload family
 	MidAbort      string // set when the subset was exceeded after operations had been issued
 }
@@ -144,6 +146,15 @@ func (s *Sym) Key() string {
 		k = s.File + ":" + types.ExprString(s.funcDecl.Recv.List[0].Type) + "." + s.Name
 	}
 	return k
+}
+
+// Group identifies the grouped declaration (type ( ... )) a type unit belongs to, nil if
+// none. All members of a group must live in one file.
+func (s *Sym) Group() any {
+	if s.Kind == symType && s.genDecl != nil {
+		return s.genDecl
+	}
+	return nil
 }
 
 // CurUnit returns the unit being compiled (for diagnostics of a dry run).
@@ -182,6 +193,9 @@ func (c *Compiler) collect() {
 							continue
 						}
 						sy := &Sym{Name: ts.Name.Name, Kind: symType, File: f.Name, Objs: []types.Object{obj}, typeSpec: ts}
+						if d.Lparen.IsValid() && len(d.Specs) > 1 {
+							sy.genDecl = d // a member of a grouped declaration: type ( ... )
+						}
 						c.addSym(sy)
 					}
 				case token.VAR:
@@ -296,11 +310,15 @@ func (c *Compiler) Run() (err error) {
 	for _, s := range c.syms {
 		c.ensure(s)
 	}
-	// complete lazily loaded types nobody looked into
+	// complete lazily loaded types nobody looked into (before the grouped declarations
+	// are closed: Complete drops specs that never got a type)
 	for _, s := range c.syms {
 		if s.Kind == symType && s.lazy && s.tdecl != nil && s.Failed == nil && !s.tdecl.Inited() {
 			c.completeType(s)
 		}
+	}
+	for _, defs := range c.groupOrder {
+		defs.Complete()
 	}
 	return nil
 }
